@@ -341,3 +341,14 @@ Proof.
   - apply (deq_dd pos_eqb pos_eqb_spec), H.
   - apply deq_in, H.
 Qed.
+
+(* a decision procedure for k1_free (used by the examples) *)
+Definition k1_freeb (locs : list loc) : bool :=
+  forallb (fun e => forallb (fun p => negb (e =? p)) (flat_map pts locs)) (flat_map ends locs).
+
+Lemma k1_freeb_spec locs : k1_freeb locs = true -> k1_free locs.
+Proof.
+  unfold k1_freeb, k1_free. intros H e p He Hp. rewrite forallb_forall in H.
+  specialize (H e He). rewrite forallb_forall in H. specialize (H p Hp).
+  apply negb_true_iff, Z.eqb_neq in H. exact H.
+Qed.
